@@ -177,7 +177,7 @@ def run(ctx):
             ctx.stat('%s_%s_%s' % (name, c['kind'], 'hdr' if e['header'] is not None else ('perr' if e['perr'] else 'nohdr')))
             if e['header'] is not None:
                 ctx.nontriv((name, c['q'], json.dumps(c['hdrA']), json.dumps(c['hdrB'])))
-        ctx.sample({'impl': name, 'query': cases[0]['q'] if name == 'py' else cases[0]['qjs'], 'input_header': cases[0]['hdrA'], 'model': exp[0], 'implementation': got[0]})
+        ctx.sample_safe(lambda: {'impl': name, 'query': cases[0]['q'] if name == 'py' else cases[0]['qjs'], 'input_header': cases[0]['hdrA'], 'model': exp[0], 'implementation': got[0]})
     ctx.cross_check_vm(550, args, raw, n=60)
     hdrjs.run(ctx, cases[:3000])      # HeaderJs.v (character-level model of the JS derivation) against rbql-js on the same select lists
     ctx.rule = ('select lists of 1-4 items over {aN, a[N], a.name, a["name"], NR/NF, *, a.*, b.*, other expressions with nested brackets and commas inside calls/literals, aliases as/AS, '
